@@ -11,7 +11,7 @@ Oracle (the property statement):
   * for every candidate c:  i2 = mn.dis(c, mode) succeeds       (cand-undecodable:<Type>)
       - i2.name == i.name                                       (cand-name)
       - i2.mode == i.mode                                       (cand-mode)
-      - i2.args == i.args   (== on expressions, as decoded)     (cand-args / cand-argcount)
+      - i2.args == i.args   (== on expressions, as decoded)     (cand-args / cand-args:width-only / cand-argcount)
       - i2.l == len(c)                                          (cand-length)
 Counted, not demanded: whether the original bytes are among the candidates (`original_among_candidates`).
 """
@@ -76,6 +76,11 @@ def _txt(i):
         return "%s <unprintable: %s>" % (i.name, type(e).__name__)
 
 
+def _widths(e):
+    """size of the operand and, for a memory operand, of its address"""
+    return "%d[%d]" % (e.size, e.ptr.size) if e.is_mem() else str(e.size)
+
+
 def judge(name, raw, first=None):
     """-> (counters, list of (kind, detail), instr)"""
     t, mn = g.env(name)
@@ -116,8 +121,12 @@ def judge(name, raw, first=None):
             elif len(i2.args) != len(instr.args):
                 k = ("cand-argcount", "candidate %s decodes to %s" % (c.hex(), _txt(i2)))
             elif list(i2.args) != list(instr.args):
-                k = ("cand-args", "candidate %s decodes to %s (args %s vs %s)" % (
-                    c.hex(), _txt(i2), [str(a) for a in i2.args], [str(a) for a in instr.args]))
+                s1, s2 = [str(a) for a in i2.args], [str(a) for a in instr.args]
+                if s1 == s2:        # same printed operands: only the width of a constant / address differs
+                    k = ("cand-args:width-only", "candidate %s decodes to %s: operand widths %s instead of %s" % (
+                        c.hex(), _txt(i2), [_widths(a) for a in i2.args], [_widths(a) for a in instr.args]))
+                else:
+                    k = ("cand-args", "candidate %s decodes to %s (args %s vs %s)" % (c.hex(), _txt(i2), s1, s2))
             elif i2.l != len(c):
                 k = ("cand-length", "candidate %s (%d bytes) decodes with length %r" % (c.hex(), len(c), i2.l))
         if k is None:
